@@ -3,6 +3,8 @@ package all
 
 import (
 	_ "verifsim/worlds/conn"
+	_ "verifsim/worlds/kos"
 	_ "verifsim/worlds/mesh"
+	_ "verifsim/worlds/otpair"
 	_ "verifsim/worlds/twopc"
 )
